@@ -99,6 +99,12 @@ func (b Bundle) Fragment(mtu int) (bs []Bundle, err error) {
 
 // fragmentPrimaryBlock creates a fragment's Primary Block and calculates its length.
 func fragmentPrimaryBlock(pb PrimaryBlock, fragmentOffset, totalDataLength int) (fragPb PrimaryBlock, l int, err error) {
+	if pb.HasFragmentation() {
+		// Fragmenting a fragment: offsets stay relative to the original payload, the total length is the original one.
+		fragmentOffset += int(pb.FragmentOffset)
+		totalDataLength = int(pb.TotalDataLength)
+	}
+
 	fragPb = PrimaryBlock{
 		Version:            pb.Version,
 		BundleControlFlags: pb.BundleControlFlags | IsFragment,
